@@ -96,7 +96,21 @@ def bc(a, b):
     raise Untranslatable(f'broadcast {a} with {b} is not modelled symbolically')
 
 
+def _refresh_c07(repo):
+    """Generated/C08.lean refers to the translated scalar evaluators of Generated/C07.lean: keep that file in step with the
+    source this run looks at"""
+    import os
+    import gen_c07
+    text, _ = gen_c07.generate(repo)
+    path = os.path.join(os.path.dirname(os.path.dirname(os.path.abspath(__file__))), 'lean', 'PrysmVerif', 'Generated', 'C07.lean')
+    old = open(path).read() if os.path.exists(path) else None
+    if old != text:
+        with open(path, 'w') as f:
+            f.write(text)
+
+
 def generate(repo):
+    _refresh_c07(repo)
     g = Gen('C08', imports=['PrysmVerif.PyPrelude', 'PrysmVerif.Model.C08', 'PrysmVerif.Generated.C07'], header=HDR)
     che, _ = load(repo, 'prysm/polynomials/cheby.py')
     xyf, _ = load(repo, 'prysm/polynomials/xy.py')
